@@ -761,3 +761,48 @@ def block_path_sites(w, body):
             if "blockdir::subdir_relpath" in flow.origin_calls(o0):
                 out.append((e, flow.origins_x(lib, body, vals[1], through_all=FMT_THROUGH)))
     return out
+
+
+def block_dir_fresh(ck, w, rid):
+    """Archive::block_dir() lists the blocks anew for every operation: the present-block set an operation works with
+    is never older than the operation. A cached accessor (a field of Archive, a OnceCell / static) would let a backup
+    deduplicate against blocks that a delete or gc through another handle has removed since."""
+    lib = w.lib
+    o = ck.ob(rid, "Archive::block_dir() opens (and lists) the block directory on every call: no BlockDir is kept in Archive or in a static, "
+                   "and each Ok result comes from a BlockDir::open performed by that call")
+    problems = []
+    adt = lib.adts.get("archive::Archive")
+    if adt is None:
+        ck.fail(o, "archive::Archive", "anchor-missing", "struct Archive not found")
+        return
+    for v in adt["variants"]:
+        for f in v["fields"]:
+            if re.search(r"blockdir::BlockDir(?![A-Za-z])", f["ty"]) or re.search(r"HashSet<blockhash::BlockHash>", f["ty"]):
+                problems.append("Archive.%s holds a %s across operations" % (f["name"], f["ty"]))
+    bd = lib.main_body("archive::Archive::block_dir")
+    if bd is None:
+        ck.fail(o, "archive::Archive::block_dir", "anchor-missing", "block_dir not found")
+        return
+    opens = events_of(lib, bd, "blockdir::BlockDir::open")
+    oks = [bb for bb, j, st in rules.agg_sites(bd, "std::result::Result", "Ok") if st["pl"]["l"] == 0 and not st["pl"]["p"]]
+    rets = [bb for bb in bd.return_blocks()]
+    if not opens:
+        problems.append("block_dir() does not call BlockDir::open itself (opened lazily or elsewhere)")
+    else:
+        edges, _, _ = rules.success_edges_union(bd, opens)
+        if not oks:
+            # the value is handed on without an explicit Ok(..): every return must still lie behind the open
+            reach = bd.reachable(0, removed_nodes={e.bb for e in opens})
+            if any(r in reach for r in rets):
+                problems.append("block_dir() can return without having opened the block directory")
+        for bb in oks:
+            if not edges or not bd.must_pass_edges(edges, bb):
+                problems.append("block_dir() can return Ok without a successful BlockDir::open in this call")
+    for b in rules.user_bodies(lib):
+        if b.kind == "static" and re.search(r"BlockDir(?![A-Za-z])", b.ret or ""):
+            problems.append("static %s holds a BlockDir" % b.name)
+    if problems:
+        for m in sorted(set(problems)):
+            ck.fail(o, "archive::Archive::block_dir", m.split(" (")[0], m)
+    else:
+        ck.ok(o, sites=[e.site() for e in opens], instances=len(oks) or 1)
